@@ -173,7 +173,7 @@ sfilter = _mk(Contract(
              ("S:nothing-after-the-last-output-satisfies-func",
               "implies(finite(data_of(self)) and finite(d0), forall(lambda j: implies(ite(length(data_of(self)) > 0, fq(data_of(self), length(data_of(self)) - 1), p0 - 1) < j and j < length(d0), not func(arr(d0)[j]))))"),
              ("C02:nothing-read-now", "pos(d0) == p0")],
-    replay="oracles.c03:history", stated=["filter keeps exactly the remaining items satisfying the function, in order, lazily"],
+    replay="oracles.c03:filter_items", stated=["filter keeps exactly the remaining items satisfying the function, in order, lazily"],
 ))
 sfilter.assumptions = ["xfilter is the builtin filter: library model views.filter1 (subsequence with a strictly increasing ghost index map)"]
 
